@@ -54,6 +54,8 @@ type Ctx struct {
 	skipGenerated bool
 	genFiles map[string]bool
 	exprAt   map[token.Pos]string
+	callerIdx map[*ssa.Function][]ssa.CallInstruction
+	addrTaken map[*ssa.Function]bool
 }
 
 type anchorMissing struct{ what string }
